@@ -33,7 +33,7 @@ def check(run):
     run.rule(r1, "generator::keywords holds every keyword that can occur in a type description (fundamental types, cv-qualifiers, elaborated-type keywords)", floor=len(REQUIRED))
     run.rule(r2, "a matched word is dropped only as a template name, a non-identifier, a keyword or a std:: / yorel:: entity; every other one is recorded", floor=5)
     run.rule(r3, "detail::starts_with is 'name begins with prefix'", floor=3)
-    ast = astq.Ast(common.ast_json(run, SRC, "c19_ast", ndebug=True, funcs="generator::add_forward_declaration|generator::keywords|detail::starts_with", cfg="@none@"))
+    ast = astq.Ast(common.ast_json(run, SRC, "c19_ast", ndebug=True, funcs="generator::add_forward_declaration|generator::keywords|detail::starts_with|generator::write_forward_declarations", cfg="@none@"))
     run.units.append({"unit": "c19_ast", "functions": len([f for f in ast.funcs if f.get("body")])})
     # ---- keywords table
     kv = [v for v in ast.vars if v["name"].endswith("generator::keywords")]
@@ -145,6 +145,39 @@ def check(run):
         if not ok:
             run.violation(r3, "detail::starts_with|table", "starts_with decides %s (after the loop: %s); expected mismatch -> false, end of prefix -> true, otherwise go on, false when the name ends first" % (
                 {str(k): v for k, v in table.items()}, [lit(a) for a in after]), (g["file"], g["line"]))
+    # ---- the writer: the two places that close the namespaces still open (before a name in another namespace; after the last
+    #      name) discharge the same obligation on the same state - they must agree (sibling cross-check), and each emitted
+    #      `namespace X {` is matched by one `}` per scope operator of the remembered prefix
+    r4 = "C19-close"
+    run.rule(r4, "the writer closes namespaces in two places (between names, after the last name) with the same loop: one `}` per scope operator of the remembered namespace prefix", floor=2)
+    ws = [g for g in ast.funcs if g.get("body") and g["name"].endswith("generator::write_forward_declarations")]
+    if not ws:
+        run.broken.append("generator::write_forward_declarations not found")
+    else:
+        w = ws[0]
+        closers = []
+        for n in astq.walk(w["body"]):
+            if n.get("k") == "WhileStmt" and any(x.get("k") == "StringLiteral" and x.get("s", "").strip() == "}" for x in astq.walk(n["body"])):
+                # innermost such loop only
+                if not any(m is not n and m.get("k") == "WhileStmt" and any(x.get("k") == "StringLiteral" and x.get("s", "").strip() == "}" for x in astq.walk(m["body"])) for m in astq.walk(n["body"])):
+                    closers.append(n)
+        forms = [astq.text(c["cond"]) + " :: " + " ; ".join(astq.text(x) if x.get("k") != "IfStmt" else "if %s { %s }" % (astq.text(x["cond"]), " ; ".join(astq.text(y) for y in (x["then"].get("c") or [x["then"]])))
+                                                          for x in (c["body"].get("c") or [c["body"]])) for c in closers]
+        forms = [re.sub(r"<<\(.*?ostream.*?\)", "<<", f_) for f_ in forms]
+        okc = len(closers) == 2 and forms[0] == forms[1]
+        run.instance(r4, "write_forward_declarations: the closing loop between two names and the one after the last name are the same", (w["file"], closers[0]["l"] if closers else w["line"]), ok=okc, detail={"forms": forms})
+        if len(closers) != 2:
+            run.violation(r4, "generator::write_forward_declarations|closers", "%d loop(s) emit closing braces; namespaces must be closed both before a name from another namespace and after the last name" % len(closers), (w["file"], w["line"]))
+        elif not okc:
+            run.violation(r4, "generator::write_forward_declarations|closers-differ", "the two loops that close the open namespaces differ: `%s` vs `%s`" % (forms[0][:100], forms[1][:100]), (w["file"], closers[1]["l"]))
+        # one brace per scope operator: the brace is emitted under `*it == ':'` and the iterator then skips the second colon
+        for c in closers:
+            ifs = [x for x in astq.walk(c["body"]) if x.get("k") == "IfStmt"]
+            okb = len(ifs) == 1 and astq.canon(ifs[0]["cond"])[0] == "eq" and any(x.get("k") == "CharacterLiteral" or x.get("v") == 58 or x.get("cv") == 58 for x in astq.walk(ifs[0]["cond"])) and \
+                sum(1 for x in astq.walk(c["body"]) if x.get("op") == "++" or x.get("oop") == "++") == 2 and sum(1 for x in astq.walk(ifs[0]["then"]) if x.get("op") == "++" or x.get("oop") == "++") == 1
+            run.instance(r4, "write_forward_declarations: one `}` per `::` of the remembered prefix (the second colon is skipped)", (w["file"], c["l"]), ok=okb)
+            if not okb:
+                run.violation(r4, "generator::write_forward_declarations|brace-per-scope", "a closing loop does not emit exactly one brace per scope operator (`%s`)" % astq.text(c["body"])[:100], (w["file"], c["l"]))
     run.assumptions += ["the writer (write_forward_declarations: namespace open / close bookkeeping between consecutive sorted names) is a string algorithm over run-time "
                         "characters: balance, 'each class once' and 'exactly its namespace' are NOT decided",
                         "which words a demangled type description can contain is taken from the Itanium demangler's spelling of fundamental types and qualifiers"]
